@@ -166,3 +166,8 @@ SUBS = [
         n={"quick": 600, "thorough": 8000}, shards={"quick": 4, "thorough": 16},
         essential=tuple(f"kind={k}" for k in TRIGGERS)),
 ]
+
+# thorough tier: coverage-guided fuzzing (atheris / libFuzzer) of the same oracle, see fuzz/fuzz_parse.py
+from vlib import fuzzrun  # noqa: E402
+_fuzz_last = {}
+SUBS.append(fuzzrun.fuzz_sub(ID, lambda: next(s for s in SUBS if s.name == "typing"), _fuzz_last))
